@@ -240,11 +240,18 @@ func (p *Primary) StreamWAL(
 
 	log.Info("Replica registered with address: %s", listenerAddress)
 
+	// StartSequence is the first entry the replica still needs: everything in
+	// front of it counts as acknowledged, the entry itself does not
+	var ackedBefore uint64
+	if req.StartSequence > 0 {
+		ackedBefore = req.StartSequence - 1
+	}
+
 	session := &ReplicaSession{
 		ID:              sessionID,
 		StartSequence:   req.StartSequence,
 		Stream:          stream,
-		LastAckSequence: req.StartSequence,
+		LastAckSequence: ackedBefore,
 		SupportedCodecs: []proto.CompressionCodec{proto.CompressionCodec_NONE},
 		Connected:       true,
 		Active:          true,
